@@ -108,7 +108,7 @@ structure Host (W : Type) where
   lib : String → List Value → W → LibTree W               -- SCRIPT_FUNCTIONS[name](args, options)
   other : Nat → List Value → W → LibTree W                -- any other callable value
   notCallable : Value → W → W                             -- `func_value(...)` on a non-callable: TypeError, swallowed
-  logFailure : Name → W → W                               -- debug-mode log line of a swallowed failure
+  logFailure : W → W                                      -- debug-mode log line of a swallowed failure
   newArray : List Value → W → Value × W                   -- `args[ix_arg:]` / `[]` for a lastArgArray parameter
   builtin : Name → Option FnVal                           -- EXPRESSION_FUNCTIONS (only consulted when `builtins`)
 
@@ -229,26 +229,153 @@ end
 
 /-! ## calls: the wrapper of runtime.py:235-249, library interaction trees, script functions (runtime.py:151-164) -/
 
-/-- run a library interaction tree; call-backs go through `call` (one level less fuel, supplied by `callValue`) -/
-def runTree (cfg : Config W) (call : CallFn W) (fname : Name) : LibTree W → State W → Out W
+/-- run a library interaction tree; call-backs go through `call` (supplied by `callValue`, one level less fuel) -/
+def runTree (cfg : Config W) (call : CallFn W) : LibTree W → State W → Out W
   | .ret (.ok v) w, st => .ok v { st with world := w }
-  | .ret (.fail v) w, st => .ok v { st with world := if cfg.debug then cfg.host.logFailure fname w else w }
+  | .ret (.fail v) w, st => .ok v { st with world := if cfg.debug then cfg.host.logFailure w else w }
   | .ret (.rt msg) w, st => .err (.host msg) { st with world := w }
   | .call f args w k, st =>
       match call f args { st with world := w } with
-      | .ok v st1 => runTree cfg call fname (k v st1.world) st1
+      | .ok v st1 => runTree cfg call (k v st1.world) st1
       | o => o
-  | .globalGet n w k, st => runTree cfg call fname (k (st.globals.get? n) w) { st with world := w }
-  | .globalSet n v w k, st => runTree cfg call fname (k w) { st with globals := st.globals.set n v, world := w }
+  | .globalGet n w k, st => runTree cfg call (k (st.globals.get? n) w) { st with world := w }
+  | .globalSet n v w k, st => runTree cfg call (k w) { st with globals := st.globals.set n v, world := w }
 
-/-- parameter binding of `_script_function` (runtime.py:152-163) -/
-def bindArgs (host : Host W) : List Name → Bool → List Value → W → Env × W
-  | [], _, _, w => ([], w)
-  | [p], true, as, w =>                                   -- the last parameter of a lastArgArray function
-      let (arr, w1) := host.newArray as w
-      ([(p, arr)], w1)
-  | p :: ps, laa, as, w =>
-      let (rest, w1) := bindArgs host ps laa as.tail w
-      (Env.set rest p (as.head?.getD .null) |> fun _ => (p, as.head?.getD .null) :: rest, w1)
+/-- parameter binding of `_script_function` (runtime.py:152-163): positional, missing → null, surplus ignored,
+the last parameter of a `lastArgArray` function collects the remaining arguments in a fresh array; a duplicate
+parameter name is overwritten by the later position (dict assignment) -/
+def bindArgs (host : Host W) (laa : Bool) : List Name → List Value → Env → W → Env × W
+  | [], _, env, w => (env, w)
+  | [p], as, env, w =>
+      if laa then
+        let (arr, w1) := host.newArray as w
+        (env.set p arr, w1)
+      else (env.set p (as.head?.getD .null), w)
+  | p :: q :: ps, as, env, w => bindArgs host laa (q :: ps) as.tail (env.set p (as.head?.getD .null)) w
+
+/-! ## the statement machine (runtime.py:47-147) -/
+
+inductive Res (W : Type) where
+  | done (st : State W)                       -- fell off the end: the script/function result is null
+  | ret (v : Value) (st : State W)
+  | err (e : RtErr) (st : State W)
+  | oof
+deriving Repr
+
+def isLabel (l : Name) : Stmt → Bool
+  | .label l' => l' == l
+  | _ => false
+
+/-- `next((ix for ix, stmt in enumerate(statements) if stmt.get('label') == jump_label), -1)` -/
+def findLabel (P : List Stmt) (l : Name) : Option Nat :=
+  let i := P.findIdx (isLabel l)
+  if i < P.length then some i else none
+
+/-- `label_indexes`: created empty for every invocation of `_execute_script_helper` -/
+abbrev Cache := List (Name × Nat)
+
+def Cache.get? (c : Cache) (l : Name) : Option Nat := (c.find? (·.1 == l)).map (·.2)
+
+/-- result of a jump that is taken: new cache and the index of the label -/
+def jumpTarget (P : List Stmt) (cache : Cache) (l : Name) : Option (Cache × Nat) :=
+  match cache.get? l with
+  | some i => some (cache, i)
+  | none =>
+    match findLabel P l with
+    | some i => some ((l, i) :: cache, i)
+    | none => none
+
+mutual
+/-- the call wrapper + `_script_function`; `fuel+1` → callee and call-backs run with `fuel` -/
+def callValue (cfg : Config W) : Nat → CallFn W
+  | 0, _, _, _ => .oof
+  | fuel+1, f, args, st =>
+      match f with
+      | .fn (.script id) =>
+          match cfg.funs id with
+          | some fd =>
+              let (loc, w1) := bindArgs cfg.host fd.lastArgArray fd.args args [] st.world
+              match execM cfg fuel fd.body (some loc) none [] 0 { st with world := w1 } with
+              | .done st' => .ok .null st'
+              | .ret v st' => .ok v st'
+              | .err e st' => .err e st'
+              | .oof => .oof
+          | none => .ok .null { st with world := cfg.host.notCallable f st.world }
+      | .fn (.lib name) => runTree cfg (callValue cfg fuel) (cfg.host.lib name args st.world) st
+      | .fn (.other k) => runTree cfg (callValue cfg fuel) (cfg.host.other k args st.world) st
+      | v => .ok .null { st with world := cfg.host.notCallable v st.world }
+
+/-- `_execute_script_helper(statements, options, locals_)` from statement index `pc`, with the label cache of this
+invocation; `base` is the file the running script came from (`urlFn`), used to resolve includes -/
+def execM (cfg : Config W) : Nat → List Stmt → Option Env → Option String → Cache → Nat → State W → Res W
+  | fuel, P, locals, base, cache, pc, st =>
+    match P[pc]? with
+    | none => .done st
+    | some s =>
+      match fuel with
+      | 0 => .oof
+      | fuel+1 =>
+        let st1 : State W := { st with count := st.count + 1 }
+        if cfg.maxStatements > 0 && st1.count > cfg.maxStatements then .err (.exceeded cfg.maxStatements) st1
+        else
+        match s with
+        | .expr name e =>
+            match evalExpr cfg (callValue cfg fuel) locals e st1 with
+            | .ok v st2 =>
+                match name, locals with
+                | none, _ => execM cfg fuel P locals base cache (pc+1) st2
+                | some n, some l => execM cfg fuel P (some (l.set n v)) base cache (pc+1) st2
+                | some n, none => execM cfg fuel P none base cache (pc+1) { st2 with globals := st2.globals.set n v }
+            | .err e st2 => .err e st2
+            | .oof => .oof
+        | .jump l none =>
+            match jumpTarget P cache l with
+            | some (cache', i) => execM cfg fuel P locals base cache' (i+1) st1
+            | none => .err (.unknownLabel l) st1
+        | .jump l (some c) =>
+            match evalExpr cfg (callValue cfg fuel) locals c st1 with
+            | .ok v st2 =>
+                if cfg.host.truthy v st2.world then
+                  match jumpTarget P cache l with
+                  | some (cache', i) => execM cfg fuel P locals base cache' (i+1) st2
+                  | none => .err (.unknownLabel l) st2
+                else execM cfg fuel P locals base cache (pc+1) st2
+            | .err e st2 => .err e st2
+            | .oof => .oof
+        | .ret none => .ret .null st1
+        | .ret (some e) =>
+            match evalExpr cfg (callValue cfg fuel) locals e st1 with
+            | .ok v st2 => .ret v st2
+            | .err e st2 => .err e st2
+            | .oof => .oof
+        | .label _ => execM cfg fuel P locals base cache (pc+1) st1
+        | .function fid name _ _ _ _ =>
+            execM cfg fuel P locals base cache (pc+1) { st1 with globals := st1.globals.set name (.fn (.script fid)) }
+        | .include incs =>
+            match execIncludes cfg fuel base incs st1 with
+            | .done st2 => execM cfg fuel P locals base cache (pc+1) st2
+            | o => o
+
+/-- the entries of one include statement, in order (runtime.py:107-142) -/
+def execIncludes (cfg : Config W) : Nat → Option String → List IncludeScript → State W → Res W
+  | _, _, [], st => .done st
+  | fuel, base, inc :: rest, st =>
+      let url := cfg.resolve base inc
+      match cfg.fetch url with
+      | .missing => .err (.includeFailed url) st
+      | .broken => .err (.includeParse url) st
+      | .script stmts =>
+          match fuel with
+          | 0 => .oof
+          | fuel'+1 =>
+            match execM cfg fuel' stmts none (some url) [] 0 st with
+            | .done st' => execIncludes cfg fuel' base rest st'
+            | .ret _ st' => execIncludes cfg fuel' base rest st'      -- `return` ends only the included script
+            | o => o
+end
+
+/-- `execute_script`: counter reset, global scope, no base file -/
+def execute (cfg : Config W) (fuel : Nat) (P : List Stmt) (base : Option String) (st : State W) : Res W :=
+  execM cfg fuel P none base [] 0 { st with count := 0 }
 
 end Machine
